@@ -186,7 +186,7 @@ def probes (A : Flat) (F : Feat) (r : Radii) (ad : Rat) (salt : Nat) : List Prob
     -- (b)/(c) radii just inside the must-contain band and just outside the must-exclude band
     let delta : Rat := 1 / 2000
     let rin := if r.rIn > 0 then approxDyadic (r.rIn * (1 - delta)) false else 0
-    let rout := approxDyadic (r.rOut * (1 + delta)) true
+    let rout := if ad == 0 then approxDyadic (r.tol * 8192) true else approxDyadic (r.rOut * (1 + delta)) true
     let routJ := if r.fJoin2 > 1 then approxDyadic (r.rOut * (1 + delta) * ((((r.fJoin2 * 1000000).ceil.toNat.sqrt + 1 : Nat) : Rat) / 1000)) true else rout
     let dirs := rotate unitDirs salt
     let vs := pick vertsAll 10 salt
@@ -241,7 +241,7 @@ def checkSamples (c : Case) (A : Flat) (res : List (List (List Pt))) (maxAbs : I
     let rout := qOfRat (sq (if gross then r.rOutG else r.rOut))
     if c.d > 0 then verdictPos F p rin rout m2 fJ fC
     else if c.d < 0 then verdictNeg F p rin rout m2 fJ c.polyValid
-    else verdictZero F p
+    else verdictZero F p (qOfRat (sq (r.tol * 4096)))
   let d2 := qOfRat (sq ad)
   let rec go : List Probe → Option String
     | [] => none
@@ -363,6 +363,8 @@ def checkBuffer (stats : Bool) (line : String) : String :=
           let minL : Int := segL.foldl min (segL.headD 0)
           let big := !segL.isEmpty && decide (sq c.d > (minL : Rat))
           let closed := A.lines.any fun l => l.length ≥ 4 && l.head? == l.getLast?
+          -- |d| below 2⁻²⁰ of the largest coordinate: the 12-digit rung of BufferOp's precision ladder is then coarser than 10⁻⁶ d
+          let tiny := c.d != 0 && decide (ratAbs c.d * 1048576 < (maxAbs : Rat))
           -- is the input linework "not simple": two segments of the lines meet anywhere except consecutive segments of one line at
           -- their common vertex (and a closed line's first and last segment at the closing vertex), or a line repeats a point
           let lineSegs : List (Nat × Nat × Nat × Bool × Seg) := (A.lines.zipIdx).flatMap fun (l, li) =>
@@ -385,7 +387,7 @@ def checkBuffer (stats : Bool) (line : String) : String :=
                  decide (ux * vx + uy * vy < 0) && decide (cr * cr * 1000000000000 ≤ a.sqLen * b.sqLen))
               else if li == lj && cl && si == 0 && sj == n - 1 then r == SegRel.overlap
               else r != SegRel.disjoint
-          let tag (e : String) : String := if e == "ok" || e.startsWith "stats" then e else e ++ s!" reg={if big then "big" else "small"} closed={if closed then 1 else 0} selfx={if selfX then 1 else 0}"
+          let tag (e : String) : String := if e == "ok" || e.startsWith "stats" then e else e ++ s!" reg={if big then "big" else "small"} closed={if closed then 1 else 0} selfx={if selfX then 1 else 0} parts={A.lines.length} tiny={if tiny then 1 else 0}"
           tag <|
           if get "st" != "ok" then s!"bad null mode={get "mode"}" else
           if c.mode == "buf" then
